@@ -43,17 +43,14 @@ Oracles (none of them looks at the code under test):
 * call histories (``call-history`` slice): every sequence of 0, 1 and 2 prior public calls - ``rio_reproject`` /
   ``xr_reproject`` with unusual keyword options (init_dest_nodata, INIT_DEST, XSCALE/YSCALE, src/dst nodata, threads,
   memory limit, tolerance, ...) and ``compute_reproject_roi`` with unusual planner options - before the standard
-  plan + paste-vs-nearest-warp comparison, each history in a forked copy of the worker that is discarded afterwards.
-  Direct oracle: all clauses above hold before and after the history (so state left behind by anything earlier cannot
-  hide a defect); differential oracle: plan and warped image are identical to those obtained for the same pair before
-  the history.
+  plan + paste-vs-nearest-warp comparison.  Direct oracle: all clauses above hold before and after the history (so
+  state left behind in a long-lived worker by an earlier case cannot hide a defect); differential oracle: plan and
+  warped image are identical to those obtained for the same pair before the history (judged when the clauses held
+  before the history, i.e. relative to a sound baseline).
 """
 from __future__ import annotations
 
 import itertools
-import os
-import pickle
-import traceback
 
 import numpy as np
 from affine import Affine
@@ -617,55 +614,38 @@ def _same_img(a, b):
         np.array_equal(a, b, equal_nan=True) if a.dtype.kind == "f" else np.array_equal(a, b))
 
 
+_EXECUTED = []  # classes of the prior calls this process has executed so far (diagnostics only)
+
+
 def run_history(case):
-    """Each history runs in a forked copy of the worker, which is thrown away afterwards: the history starts from the
-    state the worker has (no case of this check ever passes an unusual option in the worker itself), whatever the calls
-    leave behind cannot reach another case, and a replay in a new process sees the same thing."""
-    rfd, wfd = os.pipe()
-    pid = os.fork()
-    if pid == 0:  # child
-        code = 1
-        try:
-            os.close(rfd)
-            try:
-                payload = ("R", e1._judge(_HISTORY_INNER, case))  # exceptions from the tree under verification -> finding
-            except BaseException:  # pylint: disable=broad-except
-                payload = ("harness-error", traceback.format_exc())
-            with os.fdopen(wfd, "wb") as f:
-                pickle.dump(payload, f, protocol=4)
-            code = 0
-        finally:
-            os._exit(code)
-    os.close(wfd)
-    with os.fdopen(rfd, "rb") as f:
-        data = f.read()
-    _, status = os.waitpid(pid, 0)
-    if status != 0 or not data:
-        raise RuntimeError(f"call-history child for {case!r} ended with wait status {status} and {len(data)} bytes of result")
-    kind, val = pickle.loads(data)
-    if kind != "R":
-        raise RuntimeError(f"harness error in the call-history child for {case!r}:\n{val}")
-    return val
-
-
-def _run_history(case):
     hist, base = case
     p0, p1 = {}, {}
-    r0 = run_case(base, p0)  # the process as it is (fresh on a sound tree, whatever the worker did before)
+    r0 = run_case(base, p0)  # the process as it is: fresh on a sound tree, whatever the worker executed before
     w0 = p0["warp"].copy() if "warp" in p0 else None
+    earlier = list(_EXECUTED)
     for call in hist:
         prior_call(call)
+        if call_class(call) not in _EXECUTED:
+            _EXECUTED.append(call_class(call))
     r1 = run_case(base, p1)
     hcls = "+".join(sorted({call_class(c) for c in hist})) or "none"
     r = R(outcome=f"{r1.outcome}|after:{'+'.join(c[0] for c in hist) or 'nothing'}", nontrivial=True,
           counts=dict(r1.counts))
     seen = set()
-    for f in r0.fails:  # direct clause, before the history
+    for f in r0.fails:  # direct clauses before the history of this case
         seen.add(f.key)
-        r.fail(f.key, f.msg)
-    for f in r1.fails:  # direct clause, after the history
+        if not earlier:  # nothing unusual was executed by this process yet: the plain finding
+            r.fail(f.key, f.msg)
+            continue
+        r.fail(f"state-left-by-earlier-calls:{f.key}",
+               f"before any call of this case, in a process that had earlier executed public calls with the option "
+               f"classes {earlier} (reproduce with `--only call-history --jobs 1`; a replay of this single case starts in "
+               f"a new process): " + f.msg)
+    for f in r1.fails:  # direct clauses after the history
         if f.key not in seen:
             r.fail(f"after-calls[{hcls}]:{f.key}", f"after the earlier calls {hist!r} (not before them): " + f.msg)
+    if r0.fails:
+        return r  # no sound baseline for the differential clause
     # differential clause: same pair, same arguments -> same plan, same image
     if p0["plan"] != p1["plan"]:
         r.fail(f"plan-changed-after-calls[{hcls}]",
@@ -676,9 +656,6 @@ def _run_history(case):
                f"rio_reproject(..., 'nearest') gave {None if w0 is None else w0.tolist()} before and "
                f"{None if w1 is None else w1.tolist()} after the calls {hist!r}: {p1['desc']}")
     return r
-
-
-_HISTORY_INNER = e1.Slice("call-history", lambda: (), _run_history)
 
 
 # ---------------------------------------------------------------------------------------------
@@ -1017,9 +994,10 @@ def main(ctx):
         "call-history: the property is a statement about the functions, not about a fresh process - it is demanded after "
         "any earlier public call (results of the earlier calls themselves are not judged); the clauses are evaluated "
         "before AND after the history, and plan / warped image must not change across it; the comparison warp goes "
-        "through rio_reproject into a destination pre-filled with a junk value; every history is executed in a forked "
-        "copy of the worker process (discarded afterwards), so it starts from a state in which no unusual option was ever "
-        "passed and cannot influence any other case",
+        "through rio_reproject into a destination pre-filled with a junk value; histories run one after another in "
+        "long-lived worker processes, which is sound because the clauses are demanded in every state (a failure seen "
+        "BEFORE the history of a case is reported under 'state-left-by-earlier-calls:' with the list of option classes "
+        "the process has executed so far)",
         "padding/align options: the clauses are conditional on what the returned plan says (paste_ok, read_shrink), "
         "whatever options it was requested with; whether paste is offered at all under explicit padding/align is not "
         "judged (the code documents that it is offered only for padding in (None,0) and align in (None,0))",
